@@ -30,7 +30,7 @@ from fractions import Fraction as F
 from multiprocessing import Pool
 
 from harness.base import Results, corpus_lines
-from harness.lim_fake import Env
+from harness.lim_fake import Env, find_outgoing_limiter
 
 TIE = F(1, 10**9)
 
@@ -83,16 +83,24 @@ def recalc_cases(deep):
 
 
 def run_recalc(env, cases):
+    """the recalibration step in isolation: needs the private sample list and method by their
+    usual names; returns None (the grid is skipped, the workloads and the facts table still
+    exercise recalibration through send_request) when a rewrite renamed them"""
     env.new_loop()
     _p, _t, s = env.make_session(env.session.RPCSession, 'client')
     out = []
-    lim = s._outgoing_concurrency
+    lim = find_outgoing_limiter(s)
+    samples = getattr(s, '_req_times', None)
+    step = getattr(s, '_recalc_concurrency', None)
+    if lim is None or not isinstance(samples, list) or step is None:
+        env.close_loop()
+        return None
     for cur, trt, avg in cases:
         lim.set_target(cur)
         s.target_response_time = trt
-        s._req_times[:] = [avg]
+        samples[:] = [avg]
         try:
-            s._recalc_concurrency()
+            step()
             out.append(lim.max_concurrent)
         except Exception as e:      # noqa: recalibration must not raise for any history
             out.append(f'{type(e).__name__}: {e}')
@@ -102,6 +110,9 @@ def run_recalc(env, cases):
 
 def evaluate_recalc(ctx, res, cases):
     impl = run_recalc(_env, cases)
+    if impl is None:
+        res.count('recalc_grid_skipped_private_names_not_found', len(cases))
+        return
     model = ctx.model([f'R {cur} {fr(trt)} {fr(avg)}' for cur, trt, avg in cases])
     for idx, ((cur, trt, avg), new) in enumerate(zip(cases, impl)):
         case = {'level': 'recalc', 'current': cur, 'target_response_time': trt, 'avg': avg}
@@ -139,6 +150,7 @@ class Run:
         self.env = env
         self.wl = wl
         env.new_loop()
+        env.vtime.offset = float(2 ** 30)
         self.loop = env.loop
         RPCSession = env.session.RPCSession
         cfg = wl['cfg']
@@ -151,7 +163,7 @@ class Run:
         self.tr.on_lost = self.on_lost
         self.tr.on_resume_reading = self.flush
         self.held = []           # data that arrived while the session had paused reading
-        self.lim = self.s._outgoing_concurrency
+        self.lim = find_outgoing_limiter(self.s)
         self.log = []            # (kind, caller, time, limit, extra)
         self.tasks = {}
         self.written = {}        # caller -> write time
@@ -227,6 +239,7 @@ class Run:
             return
         if cid is not None:
             self.reply_at[cid] = (self.loop.time(), kind)
+            self.note('A', cid)
         self.proto.data_received(data)
 
     def flush(self):
@@ -312,6 +325,7 @@ def judge(run):
     stats = dict(result=0, error=0, timeout=0, cancelled=0, exc=0, max_inflight=0, limit_changes=0,
                  queued=0)
     first = [None]
+    known = []
 
     def fail(key, why):
         if first[0] is None:
@@ -342,8 +356,8 @@ def judge(run):
             start_info[cid] = (t, len([q for q in queued if q != cid]))
         elif kind == 'E':
             if cid in queued:
-                if queued[0] != cid and run.lost_at is None and not wl.get('pauses'):
-                    fail('c20:not-fifo', f'caller {cid} written before caller {queued[0]} that queued earlier')
+                # (the order in which queued callers are written is not part of the property; it is
+                # compared with the model by the monitor)
                 queued.remove(cid)
             inflight.add(cid)
             cap = max(cap, limit)
@@ -351,6 +365,15 @@ def judge(run):
             if len(inflight) > maxlimit:
                 fail('c20:in-flight-exceeds-max-limit',
                      f'{len(inflight)} operations awaiting a response at t={t}; largest limit so far {maxlimit}')
+            else:
+                # the text counts REQUESTS: a batch of k requests is k of them (one send operation,
+                # one permit).  Reported under its own key: known finding, see awaiting_cap_full_fails
+                nreq = sum(sum(1 for x in callers[c]['items'] if x) if callers[c]['kind'] == 'batch' else 1
+                           for c in inflight)
+                if nreq > maxlimit:
+                    known.append(('c20:batch-requests-exceed-limit',
+                                  f'{nreq} requests ({len(inflight)} send operations, batches included) await '
+                                  f'responses at t={t}; the largest limit that has been in force is {maxlimit}'))
             # (with blocked writes a caller is written later than it entered the limiter, so the
             # capacity cannot be reconstructed from the writes: only the max-limit clause applies)
             if len(inflight) > cap and not wl.get('pauses'):
@@ -423,7 +446,7 @@ def judge(run):
     # whose response times (per request) are ALL far above target_response_time and which spans at
     # least two full intervals (2*recalibrate_count samples + slack for batches that step over the
     # count), the limit must have been lowered at least once - unless it already is 1
-    if run.lost_at is None and not wl.get('pauses'):
+    if run.lost_at is None and not wl.get('pauses') and cfg['trt'] > 0 and cfg['recal'] >= 1:
         recal, trt = cfg['recal'], cfg['trt']
         maxb = max([count_of(c) for c in wl['callers']] + [1])
         need = 2 * recal + 2 * maxb
@@ -467,8 +490,24 @@ def judge(run):
                 fail('c20:not-cancelled-on-connection-loss',
                      f'caller {cid} was awaiting a response when the connection was lost at '
                      f'{run.lost_at}; outcome {out} at {t}')
+    # ... and a caller still queued for a slot at that moment gets the cancellation too: its request
+    # can never be written any more, so no response and no "wait limit since it was written" exist
+    if run.lost_at is not None and not wl.get('pauses'):
+        for cid, (t0, _q) in start_info.items():
+            if cid in run.written or cid not in done or t0 >= run.lost_at - 1e-12 \
+                    or cid in run.cancelled_by_harness:
+                continue
+            t, out = done[cid]
+            if t < run.lost_at - 1e-12:
+                continue
+            if out[0] != 'cancelled' or abs(t - run.lost_at) > 1e-9:
+                fail('c20:not-cancelled-on-connection-loss',
+                     f'caller {cid} was queued for a slot (request not yet written) when the connection was '
+                     f'lost at {run.lost_at}; outcome {out} at {t}, expected cancellation at {run.lost_at}')
     stats['queued'] = sum(1 for cid, (t0, q) in start_info.items()
                           if cid in run.written and run.written[cid] > t0)
+    if first[0] is None and known:
+        first[0] = known[0]
     return first[0], stats
 
 
@@ -528,6 +567,90 @@ def monitor_ops(run):
     return ops, want
 
 
+def timed_ops(run):
+    """the environment's actions of a workload as operations of the timed model (`drv_c20 T`): calls,
+    deliveries of proper answers, the loss of the connection, separated by waits; None when the
+    workload contains what the timed model does not cover (blocked writes, callers cancelled by
+    their owner)"""
+    wl = run.wl
+    if wl.get('pauses') or wl.get('cancels'):
+        return None
+    callers = {c['id']: c for c in wl['callers']}
+    ops, now = [], 0.0
+    for kind, cid, t, _lim, _extra in run.log:
+        if kind not in ('s', 'A', 'L'):
+            continue
+        if t > now:
+            ops.append(f'w{fr(t - now)}')
+            now = t
+        if kind == 's':
+            c = callers[cid]
+            if c['kind'] == 'batch' and not any(c['items']):
+                continue            # notifications only: sent without a slot, nothing to wait for
+            ops.append(f'c{cid}:{count_of(c)}')
+        elif kind == 'A':
+            ops.append(f'a{cid}')
+        else:
+            ops.append('l')
+            break
+    n = len(wl['callers'])
+    ops.append(f"w{fr((n + 3) * (wl['cfg']['timeout'] + 1) + 10)}")
+    return ops
+
+
+def compare_timed(res, case, run_info, mline):
+    """per caller: when written, when and how the call ended - implementation vs timed model"""
+    written, done, ties, outside = run_info
+    m_w, m_e = {}, {}
+    for tok in mline.split():
+        if tok[0] == 'W':
+            i, t = tok[1:].split('@')
+            m_w.setdefault(int(i), F(t))
+        elif tok[0] == 'E':
+            i, rest = tok[1:].split('@')
+            t, k = rest.split(':')
+            m_e.setdefault(int(i), (F(t), k))
+    kind_of = {'result': 'A', 'error': 'A', 'timeout': 'T', 'cancelled': 'C'}
+    for cid, (t, out) in sorted(done.items()):
+        if cid in outside:
+            continue
+        got = (written.get(cid), t, kind_of.get(out[0], '?'))
+        mw, me = m_w.get(cid), m_e.get(cid)
+        ok = me is not None and me[1] == got[2] and abs(float(me[0]) - t) <= 1e-9 \
+            and ((mw is None) == (got[0] is None)) and (mw is None or abs(float(mw) - got[0]) <= 1e-9)
+        if not ok:
+            if ties:
+                res.count('timed_model_skipped_same_instant_events')
+            else:
+                res.disagreement(case, f'caller {cid}: written {got[0]}, ended {got[1]} {got[2]}',
+                                 f'timed model: written {None if mw is None else float(mw)}, '
+                                 f'ended {None if me is None else (float(me[0]), me[1])}')
+            return
+    res.count('timed_model_workloads_agreeing')
+
+
+def timed_info(run):
+    """what is compared, and whether two different kinds of events fall on the same instant (then the
+    order in which the loop delivers them is not determined and the comparison is skipped)"""
+    done = {}
+    for kind, cid, t, _lim, extra in run.log:
+        if kind == 'd':
+            done[cid] = (t, extra)
+    timeout = run.wl['cfg']['timeout']
+    deadlines = {round(tw + timeout, 9) for tw in run.written.values()}
+    answers = {round(ra[0], 9) for ra in run.reply_at.values()}
+    starts = {round(c['start'], 9) for c in run.wl['callers']}
+    lost = {round(run.lost_at, 9)} if run.lost_at is not None else set()
+    ties = bool(deadlines & answers or deadlines & lost or answers & lost or starts & lost
+                or starts & deadlines or starts & answers)
+    # outside the timed model: batches of notifications only (no slot, no wait), calls made after the
+    # connection was lost
+    outside = {c['id'] for c in run.wl['callers']
+               if (c['kind'] == 'batch' and not any(c['items']))
+               or (run.lost_at is not None and c['start'] >= run.lost_at - 1e-12)}
+    return dict(run.written), done, ties, outside
+
+
 def fmt_list(l):
     return '.'.join(str(x) for x in l) if l else '-'
 
@@ -575,8 +698,9 @@ def make_peer(spec):
 
 
 def random_workload(rng, big=False):
-    cfg = dict(timeout=rng.choice([30.0, 30.0, 2.0, 0.5]), trt=rng.choice([3.0, 3.0, 0.25, 10.0]),
-               recal=rng.choice([30, 30, 10, 3, 1]))
+    # (all configured values: also recalibrate_count 0 and a zero / negative target_response_time)
+    cfg = dict(timeout=rng.choice([30.0, 30.0, 2.0, 0.5]), trt=rng.choice([3.0, 3.0, 0.25, 10.0, 3.0, 0.0, -1.0]),
+               recal=rng.choice([30, 30, 10, 3, 1, 0]))
     n = rng.choice([1, 2, 5, 20, 51, 60, 120]) if not big else rng.randint(1, 120)
     pattern = rng.choice(['burst', 'stagger', 'waves'])
     callers = []
@@ -596,10 +720,11 @@ def random_workload(rng, big=False):
         else:
             callers.append(dict(id=i, start=st, kind='single'))
     t = cfg['timeout']
+    ref = cfg['trt'] if cfg['trt'] > 0 else 3.0      # peer speeds are relative to a sane response time
     beh = {
         'prompt': ('reply', 0.0),
-        'fast': ('reply', dy(rng, 0, cfg['trt'] / 4 + 0.02)),
-        'slow': ('reply', dy(rng, cfg['trt'], max(cfg['trt'] * 3, 0.1))),
+        'fast': ('reply', dy(rng, 0, ref / 4 + 0.02)),
+        'slow': ('reply', dy(rng, ref, max(ref * 3, 0.1))),
         'tooslow': ('reply', t + dy(rng, 0.25, 5)),
         'silent': ('silent', 0.0),
         'error': ('error', dy(rng, 0, 1)),
@@ -641,6 +766,73 @@ def stepover_workload(rng):
     return dict(cfg=cfg, callers=callers, peer_spec=dict(kind='slow', names=['slow'], table=[('reply', delay)]))
 
 
+def lower_then_raise_workload(rng):
+    """the limit is lowered by a slow response and raised again by a fast one before the lowering
+    has been absorbed by completions, with callers queued: requests awaiting responses must stay
+    within the largest limit that has been in force (50)"""
+    trt = 2.0
+    cfg = dict(timeout=400.0, trt=trt, recal=1)
+    n_slow = 48
+    slow_at = 300.0
+    a_done = rng.choice([3.0, 4.0, 6.0])
+    b_start = rng.choice([2.5, 2.0])
+    b_taken = rng.choice([1.0, 0.5, 0.25])
+    extra = rng.randint(6, 14)
+    callers, table = [], []
+    for i in range(n_slow):
+        callers.append(dict(id=i, start=0.0, kind='single'))
+        table.append(('reply', slow_at))
+    callers.append(dict(id=n_slow, start=0.0, kind='single'))
+    table.append(('reply', a_done))
+    callers.append(dict(id=n_slow + 1, start=b_start, kind='single'))
+    table.append(('reply', b_taken))
+    for j in range(extra):
+        callers.append(dict(id=n_slow + 2 + j, start=b_start + 0.25, kind='single'))
+        table.append(('reply', 0.25))
+    return dict(cfg=cfg, callers=callers,
+                peer_spec=dict(kind='mixed', names=['per-caller'], table=table))
+
+
+def blocked_cancel_workload(rng):
+    """the send buffer is full, every caller that got a slot is blocked in its write and is then
+    cancelled by its owner; once the buffer drains, later callers must still get an outcome"""
+    cfg = dict(timeout=rng.choice([5.0, 2.0]), trt=3.0, recal=30, send_delay=20.0)
+    n1 = rng.randint(50, 58)
+    n2 = rng.randint(2, 6)
+    callers = [dict(id=i, start=0.25, kind='single') for i in range(n1)]
+    callers += [dict(id=n1 + j, start=6.0 + j * 0.25, kind='single') for j in range(n2)]
+    return dict(cfg=cfg, callers=callers, pauses=[(0.0, 4.0)], cancels=[(i, 1.0) for i in range(n1)],
+                peer_spec=dict(kind='prompt', names=['prompt'], table=[('reply', 0.0)]))
+
+
+def blocked_partial_cancel_workload(rng):
+    """the send buffer is full; some of the callers blocked in their write give up (cancelled by their
+    owner), further callers arrive while it is still full; after it drains everybody who is still
+    there must get the answer to his own request"""
+    cfg = dict(timeout=rng.choice([5.0, 30.0]), trt=3.0, recal=30, send_delay=20.0)
+    n1 = rng.randint(3, 8)
+    n2 = rng.randint(2, 5)
+    callers = [dict(id=i, start=0.25, kind='single' if rng.random() < 0.8 else 'batch', items=[True, True])
+               for i in range(n1)]
+    for c in callers:
+        if c['kind'] == 'single':
+            del c['items']
+    callers += [dict(id=n1 + j, start=2.0 + j * 0.25, kind='single') for j in range(n2)]
+    gone = rng.sample(range(n1), rng.randint(1, max(1, n1 // 2)))
+    return dict(cfg=cfg, callers=callers, pauses=[(0.0, 4.0)], cancels=[(i, 1.0) for i in gone],
+                peer_spec=dict(kind='prompt', names=['prompt'], table=[('reply', 0.0)]))
+
+
+def loss_while_queued_workload(rng):
+    """more callers than the limit, a peer that does not answer, the connection is lost while the
+    excess is still queued for a slot: everybody - awaiting a response or queued - is cancelled"""
+    cfg = dict(timeout=30.0, trt=3.0, recal=30)
+    n = rng.randint(52, 70)
+    callers = [dict(id=i, start=0.0 if i < 50 else rng.choice([0.0, 0.25, 1.0]), kind='single') for i in range(n)]
+    return dict(cfg=cfg, callers=callers, drop_at=rng.choice([2.0, 5.0, 29.0]),
+                peer_spec=dict(kind='silent', names=['silent'], table=[('silent', 0.0)]))
+
+
 def corpus_workloads(verif):
     out = []
     for line in corpus_lines(verif, 'C20'):
@@ -676,7 +868,7 @@ def _wl_batch(wls):
         run.go()
         verdict, stats = judge(run)
         ops, want = monitor_ops(run)
-        out.append((verdict, stats, ops, want))
+        out.append((verdict, stats, ops, want, timed_ops(run), timed_info(run)))
     return out
 
 
@@ -694,17 +886,23 @@ def _pmap(ctx, fn, cases, chunk=20):
 
 def evaluate_workloads(ctx, res, wls, scope):
     results = _pmap(ctx, _wl_batch, wls)
-    lines = []
-    for wl, (_v, _s, ops, _w) in zip(wls, results):
+    lines, tlines, tidx = [], [], {}
+    for k, (wl, (_v, _s, ops, _w, tops, _ti)) in enumerate(zip(wls, results)):
         cfg = wl['cfg']
         lines.append(f"M 50 {fr(cfg['trt'])} {cfg['recal']} | " + ' '.join(ops))
+        if tops is not None:
+            tidx[k] = len(tlines)
+            tlines.append(f"T 50 {fr(cfg['trt'])} {cfg['recal']} {fr(cfg['timeout'])} | " + ' '.join(tops))
     model = ctx.model(lines)
-    for idx, (wl, (verdict, stats, ops, want)) in enumerate(zip(wls, results)):
+    tmodel = ctx.model(tlines) if tlines else []
+    for idx, (wl, (verdict, stats, ops, want, tops, tinfo)) in enumerate(zip(wls, results)):
         case = {'level': 'workload', 'workload': wl}
         if verdict:
             res.violation(verdict[0], case, verdict[1])
         if model is not None:
             compare_monitor(res, case, wl['cfg'], ops, want, model[idx])
+        if tmodel is not None and idx in tidx and not verdict:
+            compare_timed(res, case, tinfo, tmodel[tidx[idx]])
         res['evaluations'] += 1
         res.count(f'{scope}_workloads')
         res.count('callers', len(wl['callers']))
@@ -767,6 +965,13 @@ def run(ctx):
         evaluate_workloads(ctx, res, [stepover_workload(rng) for _ in range(370)], 'stepover')
         nso += 370
     res['scopes']['stepover_workloads'] = nso
+    ntg = 4
+    for gen, name in ((lower_then_raise_workload, 'lower_then_raise'), (blocked_cancel_workload, 'blocked_cancel'),
+                      (blocked_partial_cancel_workload, 'blocked_partial_cancel'),
+                      (loss_while_queued_workload, 'loss_while_queued')):
+        evaluate_workloads(ctx, res, [gen(rng) for _ in range(ntg)], name)
+    res['scopes']['targeted_workloads'] = {'lower_then_raise': ntg, 'blocked_cancel': ntg,
+                                           'blocked_partial_cancel': ntg, 'loss_while_queued': ntg}
     # (c) exhaustive recalibration grid
     full = ctx.tier == 'thorough'
     cases = list(recalc_cases(full and not _failed(res, known)))
